@@ -350,7 +350,7 @@ func discharge(obls []*obligation, dir string, timeoutS int, workers int) {
 					// once many obligations have failed the run is lost anyway: do not spend the full timeout on each of
 					// the remaining ones (a broken function can have thousands)
 					t := timeoutS
-					if atomic.LoadInt32(&failedSoFar) >= 20 && t > 3 {
+					if atomic.LoadInt32(&failedSoFar) >= 5 && t > 3 {
 						t = 3
 					}
 					r = runSolvers(f, t, "")
